@@ -613,3 +613,182 @@ func simCmpGeneric(f *ssa.Function, env map[ssa.Value]cmpSym, sign map[string]in
 	}
 	return 0, false
 }
+
+// ---- P09-tostring: what a duration is rendered as, evaluated per public method ----------------
+//
+// renderAlt is one way the text handed to Format comes about: under DecimalDuration (decimal == 1),
+// without it (0) or regardless of it (-1), as the minutes ("minutes") or as the named notation
+// method of the value ("ToString", "ToStringWithSign"); of is the value it is the notation of.
+type renderAlt struct {
+	decimal int
+	kind    string
+	of      ssa.Value
+}
+
+// durationRenderAlts follows v through module helpers (one binding level per call: parameters are
+// bound to the arguments of the call entered) to the notation calls it can stand for. A helper's
+// return is infeasible — and skipped — when it is guarded by a boolean parameter bound to the
+// opposite constant; a parameter of function type is followed into the bound method value
+// (d.ToString) or the function literal given for it. ok=false: something else flows in.
+func durationRenderAlts(v ssa.Value, bind map[*ssa.Parameter]ssa.Value, depth int) ([]renderAlt, bool) {
+	if depth > 6 {
+		return nil, false
+	}
+	resolve := func(x ssa.Value) ssa.Value {
+		x = strip(x)
+		if d := deref(x); d != nil {
+			x = strip(d)
+		}
+		if prm, isP := x.(*ssa.Parameter); isP {
+			if b, bound := bind[prm]; bound {
+				return b
+			}
+		}
+		return x
+	}
+	v = strip(v)
+	if ph, isPhi := v.(*ssa.Phi); isPhi {
+		var out []renderAlt
+		for _, e := range ph.Edges {
+			a, ok := durationRenderAlts(e, bind, depth+1)
+			if !ok {
+				return nil, false
+			}
+			out = append(out, a...)
+		}
+		return out, true
+	}
+	c, idx := callOf(v)
+	if c == nil || idx != 0 {
+		return nil, false
+	}
+	if g := staticCallee(c); g != nil && g.String() == "strconv.Itoa" {
+		if n, recv, _, _ := methodCall(c.Common().Args[0]); n == "InMinutes" && recv != nil {
+			return []renderAlt{{-1, "minutes", resolve(recv)}}, true
+		}
+		return nil, false
+	}
+	if n, recv, args, _ := methodCallOf(c); (n == "ToString" || n == "ToStringWithSign") && recv != nil && len(args) == 0 {
+		return []renderAlt{{-1, n, resolve(recv)}}, true
+	}
+	// a call of a function value: a parameter bound to d.ToString / d.ToStringWithSign or a literal
+	if !c.Common().IsInvoke() && staticCallee(c) == nil {
+		fv := resolve(c.Common().Value)
+		if mc, isMC := fv.(*ssa.MakeClosure); isMC {
+			fn, _ := mc.Fn.(*ssa.Function)
+			if fn != nil && strings.HasSuffix(fn.Name(), "$bound") && len(mc.Bindings) == 1 {
+				n := strings.TrimSuffix(fn.Name(), "$bound")
+				if n == "ToString" || n == "ToStringWithSign" {
+					rv := strip(mc.Bindings[0])
+					if d := deref(rv); d != nil {
+						rv = strip(d)
+					}
+					return []renderAlt{{-1, n, rv}}, true
+				}
+				return nil, false
+			}
+		}
+		return nil, false
+	}
+	g := staticCallee(c)
+	if g == nil || len(g.Blocks) == 0 || !strings.HasPrefix(pkgPathOfFn(g), modPath) {
+		return nil, false
+	}
+	inner := map[*ssa.Parameter]ssa.Value{}
+	for i, prm := range g.Params {
+		if i < len(c.Common().Args) {
+			a := c.Common().Args[i]
+			if ap, isP := strip(a).(*ssa.Parameter); isP {
+				if b, bound := bind[ap]; bound {
+					a = b
+				}
+			}
+			inner[prm] = a
+		}
+	}
+	var out []renderAlt
+	for _, ret := range returnsOf(g) {
+		decimal, feasible := -1, true
+		for _, gd := range guardsOf(ret.Block()) {
+			if _, fld := fieldLoad(gd.Cond); fld == "DecimalDuration" {
+				decimal = 0
+				if gd.Pol {
+					decimal = 1
+				}
+				continue
+			}
+			cv := strip(gd.Cond)
+			if d := deref(cv); d != nil {
+				cv = strip(d)
+			}
+			if prm, isP := cv.(*ssa.Parameter); isP {
+				if b, isB := constBool(inner[prm]); inner[prm] != nil && isB {
+					if b != gd.Pol {
+						feasible = false
+					}
+					continue
+				}
+			}
+			return nil, false // a guard this evaluation cannot read
+		}
+		if !feasible {
+			continue
+		}
+		alts, ok := durationRenderAlts(retResult(ret, 0), inner, depth+1)
+		if !ok {
+			return nil, false
+		}
+		for _, a := range alts {
+			if a.decimal == -1 {
+				a.decimal = decimal
+			} else if decimal != -1 && a.decimal != decimal {
+				continue // contradictory nesting
+			}
+			out = append(out, a)
+		}
+	}
+	return out, true
+}
+
+// durationRenderedRight: the text f hands to Format is, for f's own duration parameter, the minutes
+// under DecimalDuration and notation `want` otherwise — nothing else.
+func durationRenderedRight(f *ssa.Function, want string) bool {
+	if f == nil || len(f.Params) < 2 {
+		return false
+	}
+	rets := returnsOf(f)
+	if len(rets) == 0 {
+		return false
+	}
+	for _, ret := range rets {
+		c, _ := callOf(retResult(ret, 0))
+		if c == nil || staticCallee(c) == nil || fnBase(staticCallee(c)) != "Format" || len(c.Common().Args) < 2 {
+			return false
+		}
+		alts, ok := durationRenderAlts(c.Common().Args[1], map[*ssa.Parameter]ssa.Value{}, 0)
+		if !ok || len(alts) == 0 {
+			return false
+		}
+		seenDec, seenPlain := false, false
+		for _, a := range alts {
+			own := a.of == ssa.Value(f.Params[1])
+			if !own {
+				if d := deref(a.of); d == nil || d != ssa.Value(f.Params[1]) {
+					return false
+				}
+			}
+			switch {
+			case a.decimal == 1 && a.kind == "minutes":
+				seenDec = true
+			case a.decimal == 0 && a.kind == want:
+				seenPlain = true
+			default:
+				return false
+			}
+		}
+		if !seenDec || !seenPlain {
+			return false
+		}
+	}
+	return true
+}
